@@ -248,7 +248,7 @@ func (e *env) runCycles() (stats []cpStats) {
 	if len(stats) == 2 {
 		e.c.R.Count("n_vs_2n_comparisons", 1)
 		a, b := stats[0], stats[1]
-		if b.LiveScopes+b.LiveInsts+b.LiveCtx > a.LiveScopes+a.LiveInsts+a.LiveCtx || b.Goroutines > a.Goroutines {
+		if b.LiveScopes+b.LiveInsts+b.LiveCtx > a.LiveScopes+a.LiveInsts+a.LiveCtx || b.Goroutines-b.OpenScopes > a.Goroutines-a.OpenScopes {
 			e.c.R.Count("n_vs_2n_growth_seen", 1)
 		}
 	}
